@@ -51,6 +51,7 @@ def run(ctx):
   mods = fd.module_const(mi, '_DEGREE_MODIFICATIONS')
   T['_DEGREE_MODIFICATIONS'] = mods
   grouping_sorted(ctx, mi)
+  degree_identity(ctx)
   units(ctx, mi)
   vocab(ctx, mi, T)
   reader_guards(ctx, mi)
@@ -378,6 +379,37 @@ def addless_needs_compound(ctx, fi, D):
            'absent degree is read back as an alteration, which the reader rejects or misreads' % (n.left.value, sorted(want)), construct='add-less modification on the add path', definite=True)
 
 
+def degree_identity(ctx):
+  """Location-independent: a scale degree is a (number, alteration) pair - b9, 9 and #9 are three degrees.  Where
+  pitches_to_chord_symbol decides which of the degrees it is about to spell are dropped (the slash bass is spelled after the
+  slash), the comparison must be on whole degrees (their names).  A filter that compares `_parse_degree(x)[0]`, the number alone,
+  also drops a *different* pitch that happens to share the bass's degree number, and that pitch is lost from the name."""
+  fi = ctx.func('chord_symbols_lib:pitches_to_chord_symbol')
+  fn = fi.node
+  for n in ast.walk(fn):
+    if not (isinstance(n, (ast.ListComp, ast.GeneratorExp, ast.SetComp)) and n.generators and n.generators[0].ifs):
+      continue
+    pm = U.parents(fn)
+    st = n
+    while st is not None and not isinstance(st, ast.stmt):
+      st = pm.get(id(st))
+    # only filters that rebuild the list of degrees to spell
+    if not (isinstance(st, ast.Assign) and len(st.targets) == 1 and isinstance(st.targets[0], ast.Name) and
+            norm_text(n.generators[0].iter) == st.targets[0].id):
+      continue
+    v = n.generators[0].target.id if isinstance(n.generators[0].target, ast.Name) else None
+    for f in n.generators[0].ifs:
+      fx = U.expand_locals(fn, f, at=st)
+      number_only = [s for s in ast.walk(fx) if isinstance(s, ast.Subscript) and U.const_value(s.slice) == 0 and isinstance(s.value, ast.Call) and
+                     dotted(s.value.func) == '_parse_degree']
+      if number_only:
+        ctx.ob('VOCAB/degree-identity', fi, f, False, 'the degrees to spell are filtered by %s, i.e. by degree *number* (%s): a pitch that shares its number with the bass but is a '
+               'different degree (9 next to a b9 bass, #11 next to a 4 bass) is dropped from the name, and the name no longer gives back the pitches supplied' % (
+                   norm_text(f), norm_text(number_only[0])), construct='degrees are dropped by whole-degree identity', definite=True)
+      elif v is not None:
+        ctx.ob('VOCAB/degree-identity', fi, f, True, 'degrees are dropped by comparing whole degree names', construct='degrees are dropped by whole-degree identity', definite=True)
+
+
 def VOCAB_DEPS(ctx):
   """functions whose arrangement the writer-vocabulary rules read besides _degrees_to_modifications"""
   return [ctx.func('chord_symbols_lib:_largest_chord_kind_from_degrees'), ctx.func('chord_symbols_lib:_largest_chord_kind_from_relative_pitches'),
@@ -451,6 +483,17 @@ def tables(ctx, mi, T):
         return [e[i].id] if len(e) == 2 and isinstance(e[i], ast.Name) else []
       return []
     return f
+  # location-independent: a chord can hold a degree and its compound twin as different pitches (b2 and 9, 4 and #11, 6 and b13):
+  # collecting the pitches in a mapping keyed by the *folded* degree keeps only one of them
+  for st in U.walk_stmts(cp.node):
+    for tgt, val, op in U.store_targets(st):
+      if op == 'store' and isinstance(tgt, ast.Subscript) and not isinstance(tgt.slice, ast.Slice):
+        k = U.expand_locals(cp.node, tgt.slice, at=st)
+        folded = any(isinstance(n, ast.BinOp) and isinstance(n.op, ast.Mod) and U.const_value(n.right) == 7 for n in ast.walk(k))
+        if folded:
+          ctx.ob('PITCH/one-pitch-per-degree', cp, st, False, '%s files the pitch under the degree folded into one octave (%s): a chord that contains both a degree and its compound '
+                 'twin at different alterations (b2 and 9, 4 and #11) keeps only the one written last, so chord_symbol_pitches no longer returns all the pitch classes of the name' % (
+                     norm_text(st), norm_text(k)), construct='pitches are collected per degree, not per folded degree', definite=True)
   cp = Canon(cp, roles.discover(cp, {
       'root_pitch': lambda fn: roles.assigned_where(fn, lambda v, st: isinstance(v, ast.Call) and dotted(v.func) == '_pitch_class_to_midi'),
       'degree': _ret_target(0), 'alter': _ret_target(1)}))
